@@ -1503,6 +1503,12 @@ Module CI := TV.proofs.Certs2Input.
 Module CB := TV.proofs.Certs2Base.
 Local Open Scope string_scope.
 
+(** does the string contain an underscore? *)
+Fixpoint contains_us (s : string) : bool :=
+  match s with EmptyString => false | String c r => if Ascii.eqb c "_"%char then true else contains_us r end.
+Lemma us_app a b : contains_us (a ++ String "_"%char b) = true.
+Proof. induction a as [|c a IH]; cbn; [reflexivity|]. destruct (Ascii.eqb c "_"%char); auto. Qed.
+
 Section SAFE.
   Variable T : list string.
   Variable outT : Tensor.
@@ -1511,8 +1517,8 @@ Section SAFE.
   (* what names_ok provides *)
   Hypothesis Hout : CB.mem (Tensor_name outT) T = false.
   Hypothesis Hpre_out : forall r, CB.mem (Tensor_name outT ++ String "_"%char r) T = false.
-  Hypothesis Hpre_p : forall r, CB.mem (String "p" (String "_"%char r)) T = false.
-  Hypothesis Hpre_i : forall r, CB.mem (String "i" (String "_"%char r)) T = false.
+  Hypothesis Hpre_p : forall r, contains_us r = true -> CB.mem (String "p" (String "_"%char r)) T = false.
+  Hypothesis Hpre_i : forall r, contains_us r = true -> CB.mem (String "i" (String "_"%char r)) T = false.
   Hypothesis Hpre_b : forall r, CB.mem (String "b"%char (String "u"%char (String "c"%char (String "k"%char (String "e"%char (String "t"%char (String "_"%char r))))))) T = false.
   Hypothesis Hpre_w : forall r, CB.mem (String "w"%char (String "r"%char (String "i"%char (String "t"%char (String "t"%char (String "e"%char (String "n"%char (String "_"%char r)))))))) T = false.
   Hypothesis Hidx : forall i, In i (Tensor_indexes outT) -> CB.mem i T = false.
@@ -1566,20 +1572,20 @@ Section SAFE.
           | assumption
           | cbn; repeat match goal with H : _ = outT |- _ => rewrite !H end;
             repeat match goal with H : CB.mem _ T = false |- _ => rewrite !H end;
-            rewrite ?Hpre_out, ?Hpre_p, ?Hpre_i, ?Hpre_b, ?Hpre_w, ?Hout, ?mem_same; cbn;
+            rewrite ?Hpre_out, ?Hpre_b, ?Hpre_w, ?Hout, ?mem_same; rewrite ?Hpre_p, ?Hpre_i by (first [apply us_app | reflexivity]); cbn;
             repeat match goal with H : negb (CI.may_input T ?e) = true |- context [CI.may_input T ?e] => rewrite (proj1 (negb_true_iff _) H) end;
-            cbn; rewrite ?Hpre_out, ?Hpre_p, ?Hpre_i, ?Hpre_b, ?Hpre_w, ?Hout, ?mem_same; reflexivity
+            cbn; rewrite ?Hpre_out, ?Hpre_b, ?Hpre_w, ?Hout, ?mem_same; rewrite ?Hpre_p, ?Hpre_i by (first [apply us_app | reflexivity]); reflexivity
           | match goal with |- context [Variable_declare ?v _] => is_var v; destruct v; reflexivity end
           | match goal with
             | H : negb (CI.may_input T ?e) = true, R : CI.rhs_ok T ?e = true |- _ =>
                 is_var e; destruct e; cbn in H, R |- *;
-                rewrite ?Hpre_out, ?Hpre_p, ?Hpre_i, ?Hpre_b, ?Hpre_w, ?Hout, ?mem_same;
+                rewrite ?Hpre_out, ?Hpre_b, ?Hpre_w, ?Hout, ?mem_same; rewrite ?Hpre_p, ?Hpre_i by (first [apply us_app | reflexivity]);
                 try rewrite (proj1 (negb_true_iff _) H); try rewrite R; try rewrite H; reflexivity
             end
           | idtac ].
 
   Lemma gi_sparse_init leaf : goodi (write_sparse_initialization leaf).
-  Proof. unfold goodi, goodi_sb, okI. cbn. rewrite ?Hpre_p. reflexivity. Qed.
+  Proof. unfold goodi, goodi_sb, okI. cbn. rewrite ?Hpre_p by (first [apply us_app | reflexivity]). reflexivity. Qed.
 
   Lemma wp_ofold_all {A B} (P : A -> Prop) (f : B -> A -> option B) (l : list A) (init : B) (I : B -> Prop) :
     Forall P l -> (forall acc x, P x -> I acc -> wp (f acc x) I) -> I init -> wp (ofold f l init) I.
@@ -2046,6 +2052,18 @@ Proof.
   apply CB.mem_In in E. rewrite forallb_forall in H. specialize (H _ E). rewrite prefix_app in H. discriminate.
 Qed.
 
+Definition drop2 (x : string) : string := match x with String _ (String _ r) => r | _ => EmptyString end.
+(** a name [c1 c2 r] whose rest [r] contains an underscore is not in T (p_<ref>_<l>, i_<ref>_<l>, i_bucket_...; while i_dim, p_dim may be) *)
+Lemma no_prefix2 (c1 c2 : ascii) T :
+  forallb (fun x => negb (String.prefix (String c1 (String c2 EmptyString)) x) || negb (contains_us (drop2 x))) T = true ->
+  forall r, contains_us r = true -> CB.mem (String c1 (String c2 r)) T = false.
+Proof.
+  intros H r Hr. destruct (CB.mem (String c1 (String c2 r)) T) eqn:E; [|reflexivity].
+  apply CB.mem_In in E. rewrite forallb_forall in H. specialize (H _ E).
+  change (String c1 (String c2 r)) with ((String c1 (String c2 EmptyString)) ++ r)%string in H at 1.
+  rewrite prefix_app in H. cbn [drop2] in H. rewrite Hr in H. discriminate.
+Qed.
+
 Definition names_ok_T (T : list string) (d : IgDefinition) : bool :=
   match conv_tensor (IgDefinition_output_variable d) with
   | None => false
@@ -2053,8 +2071,8 @@ Definition names_ok_T (T : list string) (d : IgDefinition) : bool :=
       let out := Tensor_name outT in
       negb (CB.mem out T)
       && forallb (fun x => negb (String.prefix (out ++ "_") x)) T
-      && forallb (fun x => negb (String.prefix "p_" x)) T
-      && forallb (fun x => negb (String.prefix "i_" x)) T
+      && forallb (fun x => negb (String.prefix "p_" x) || negb (contains_us (drop2 x))) T
+      && forallb (fun x => negb (String.prefix "i_" x) || negb (contains_us (drop2 x))) T
       && forallb (fun x => negb (String.prefix "bucket_" x)) T
       && forallb (fun x => negb (String.prefix "written_" x)) T
       && forallb (fun i => negb (CB.mem i T)) (Tensor_indexes outT)
@@ -2085,8 +2103,8 @@ Proof.
   refine (gen_safe_T T outT (IgDefinition_output_variable d) Hov _ _ _ _ _ _ _ d eq_refl _ _ _ cap _ g _ Hg f E).
   - apply negb_true_iff. exact N1.
   - intros r. change (Tensor_name outT ++ String "_"%char r) with (Tensor_name outT ++ ("_" ++ r)). rewrite <- str_assoc. apply no_prefix. exact N2.
-  - intros r. apply (no_prefix "p_"). exact N3.
-  - intros r. apply (no_prefix "i_"). exact N4.
+  - intros r Hr. apply (no_prefix2 "p"%char "_"%char); assumption.
+  - intros r Hr. apply (no_prefix2 "i"%char "_"%char); assumption.
   - intros r. apply (no_prefix "bucket_"). exact N5.
   - intros r. apply (no_prefix "written_"). exact N6.
   - intros i Hi. rewrite forallb_forall in N7. apply negb_true_iff. exact (N7 i Hi).
@@ -2136,3 +2154,121 @@ Proof.
   intros N G E. pose proof (gen_safe_names_ok (T1 d) cap d g k f N G E) as S.
   destruct f as [name ps rt body]. destruct S as [P S]. apply (GenGenIR_sound.input_safe_sound_T (T1 d)); assumption.
 Qed.
+
+(** * 14. fuel: what is NOT proved, stated; and non-trivial instances *)
+(** [ig_fuel g] is enough: more fuel never changes the answer (so a [None] is an exception of the source, not lack of fuel).
+    NOT PROVED (argument in design.d/TIE_genir.md); a visible hypothesis for whoever needs it. *)
+Definition fuel_sufficient (d : IgDefinition) (g : ig_graph) : Prop :=
+  forall cap k m, (ig_fuel g <= m)%nat -> generate_ir_fuel cap m d g k = generate_ir_fuel cap (ig_fuel g) d g k.
+
+(* a(i) = b(i,j) * c(j), a: s, b: ds, c: s *)
+Definition ex_tb2 := IdTensor "1_b" "b" ["i";"j"] [ExhaustAst.Mode_dense; ExhaustAst.Mode_compressed].
+Definition ex_tc2 := IdTensor "2_c" "c" ["j"] [ExhaustAst.Mode_compressed].
+Definition ex_ta2 := IdTensor "0_a" "a" ["i"] [ExhaustAst.Mode_compressed].
+Definition ex_d_mv := MkDefinition ex_ta2
+  [("a", MkFormat [ExhaustAst.Mode_compressed] [0%Z]); ("b", MkFormat [ExhaustAst.Mode_dense; ExhaustAst.Mode_compressed] [0%Z;1%Z]); ("c", MkFormat [ExhaustAst.Mode_compressed] [0%Z])]
+  [("i", MkTensorDimension "a" 0%Z); ("j", MkTensorDimension "b" 1%Z)].
+Definition ex_g_mv := IgIterationNode "i" (Some (ExhaustAst.MkTensorLayer ex_ta2 0%Z)) (IgIterationNode "j" None (IgTerminalNode (IdMultiply ex_tb2 ex_tc2))).
+
+(** fuel matters (2 is not enough, 3 is) and [ig_fuel] (= 7 here) is enough; the hypotheses of the theorems above hold *)
+Example fuel_example :
+  ig_fuel ex_g_mv = 7%nat
+  /\ generate_ir_fuel None 2 ex_d_mv ex_g_mv KernelType_evaluate = None
+  /\ (exists f, generate_ir_fuel None 3 ex_d_mv ex_g_mv KernelType_evaluate = Some f
+                /\ generate_ir None ex_d_mv ex_g_mv GlueGen.KernelType_evaluate = Some f
+                /\ generate_ir_fuel None 20 ex_d_mv ex_g_mv KernelType_evaluate = Some f)
+  /\ names_ok ex_d_mv ex_g_mv = true /\ graph_outputs_of ex_d_mv ex_g_mv = true.
+Proof.
+  split; [reflexivity|]. split; [vm_compute; reflexivity|]. split; [|split; vm_compute; reflexivity].
+  eexists. split; [vm_compute; reflexivity|]. split; vm_compute; reflexivity.
+Qed.
+
+(** * 15. names_ok for well-formed definitions: three conjuncts hold by construction of [T1] *)
+Definition struct_ok (d : IgDefinition) : bool :=
+  match conv_tensor (IgDefinition_output_variable d), IgDefinition_formats d with
+  | Some outT, (k0, _) :: rest =>
+      String.eqb k0 (Tensor_name outT) && negb (CB.mem (Tensor_name outT) (map fst rest))
+      && forallb (fun itd : string * GlueGen.TensorDimension => CB.mem (GlueGen.TensorDimension_name (snd itd)) (map fst (IgDefinition_formats d)))
+                 (IgDefinition_indexes d)
+  | _, _ => false
+  end.
+
+(** the hygiene proper: the output's name, the reserved prefixes and the output's index names against the generated set *)
+Definition hygienic (d : IgDefinition) : bool :=
+  match conv_tensor (IgDefinition_output_variable d) with
+  | None => false
+  | Some outT =>
+      let out := Tensor_name outT in let T := T1 d in
+      negb (CB.mem out T)
+      && forallb (fun x => negb (String.prefix (out ++ "_") x)) T
+      && forallb (fun x => negb (String.prefix "p_" x) || negb (contains_us (drop2 x))) T
+      && forallb (fun x => negb (String.prefix "i_" x) || negb (contains_us (drop2 x))) T
+      && forallb (fun x => negb (String.prefix "bucket_" x)) T
+      && forallb (fun x => negb (String.prefix "written_" x)) T
+      && forallb (fun i => negb (CB.mem i T)) (Tensor_indexes outT)
+  end.
+
+Lemma mem_app x a b : CB.mem x (a ++ b)%list = CB.mem x a || CB.mem x b.
+Proof. unfold CB.mem. apply existsb_app. Qed.
+
+Theorem names_ok_struct d g : struct_ok d = true -> names_ok d g = hygienic d.
+Proof.
+  unfold struct_ok, names_ok, names_ok_T, hygienic.
+  destruct (conv_tensor (IgDefinition_output_variable d)) as [outT|] eqn:Hov; [|discriminate].
+  destruct (IgDefinition_formats d) as [|[k0 f0] rest] eqn:Hf; [discriminate|].
+  intros S. apply andb_true_iff in S as [S S3]. apply andb_true_iff in S as [S1 S2].
+  apply String.eqb_eq in S1. subst k0. apply negb_true_iff in S2.
+  set (out := Tensor_name outT) in *.
+  set (T := T1 d).
+  destruct (CB.mem out T) eqn:Hout; [reflexivity|]. cbn [negb andb].
+  (* the inputs *)
+  assert (Hins : filter (fun nf : string * IterGraphs.Format => negb (String.eqb (fst nf) out)) (IgDefinition_formats d) = rest).
+  { rewrite Hf. cbn [filter fst]. rewrite String.eqb_refl. cbn [negb].
+    clear -S2. induction rest as [|[n f] rest IH]; [reflexivity|]. cbn [map fst CB.mem existsb] in S2. unfold CB.mem in S2. cbn in S2.
+    apply orb_false_iff in S2 as [A B]. cbn [filter fst]. rewrite String.eqb_sym, A. cbn [negb]. f_equal. apply IH. exact B. }
+  assert (HT : T = (map fst rest
+      ++ flat_map (fun nf : string * IterGraphs.Format => let n := fst nf in
+           (flat_map (fun im : Z * Mode => [(n ++ String "_"%char (show_Z (fst im) ++ "_pos"))%string; (n ++ String "_"%char (show_Z (fst im) ++ "_crd"))%string])
+                     (py_enumerate (conv_format_modes (snd nf))) ++ [(n ++ "_vals")%string])%list) rest
+      ++ flat_map (fun itd : string * GlueGen.TensorDimension =>
+           if CB.mem (GlueGen.TensorDimension_name (snd itd)) (map fst rest) then [(fst itd ++ "_dim")%string] else []) (IgDefinition_indexes d))%list).
+  { unfold T, T1. rewrite Hov. fold out. rewrite Hins. reflexivity. }
+  assert (C10 : forallb (fun n => CB.mem n T) (tl (map fst ((out, f0) :: rest))) = true).
+  { cbn [map tl]. apply forallb_forall. intros n Hn. rewrite HT, mem_app. apply orb_true_iff. left. apply CB.mem_In. exact Hn. }
+  assert (C9 : forallb (fun '(n, fmt) =>
+                    negb (CB.mem n T)
+                    || (forallb (fun '(i, m) => CB.mem (n ++ String "_"%char (show_Z i ++ "_pos")) T
+                                              && CB.mem (n ++ String "_"%char (show_Z i ++ "_crd")) T)
+                                (py_enumerate (conv_format_modes fmt))
+                        && CB.mem (n ++ "_vals") T)) ((out, f0) :: rest) = true).
+  { cbn [forallb]. rewrite Hout. cbn [negb orb andb]. apply forallb_forall. intros [n fmt] Hin. apply orb_true_iff. right.
+    assert (HB : forall x, In x (flat_map (fun im : Z * Mode => [(n ++ String "_"%char (show_Z (fst im) ++ "_pos"))%string; (n ++ String "_"%char (show_Z (fst im) ++ "_crd"))%string])
+                     (py_enumerate (conv_format_modes fmt)) ++ [(n ++ "_vals")%string])%list -> CB.mem x T = true).
+    { intros x Hx. rewrite HT, !mem_app. apply orb_true_iff. right. apply orb_true_iff. left. apply CB.mem_In.
+      apply in_flat_map. exists (n, fmt). split; [exact Hin | exact Hx]. }
+    apply andb_true_iff. split.
+    - apply forallb_forall. intros [i m] Him. apply andb_true_iff. split; apply HB; apply in_or_app; left;
+        apply in_flat_map; exists (i, m); (split; [exact Him | cbn; auto]).
+    - apply HB. apply in_or_app. right. left. reflexivity. }
+  assert (C8 : forallb (fun '(i, td) => negb (CB.mem (GlueGen.TensorDimension_name td) T) || CB.mem (i ++ "_dim") T) (IgDefinition_indexes d) = true).
+  { apply forallb_forall. intros [i td] Hin. rewrite forallb_forall in S3. specialize (S3 (i, td) Hin). cbn [snd map fst] in S3.
+    unfold CB.mem in S3. cbn [existsb] in S3. apply orb_true_iff in S3 as [E|E].
+    - apply String.eqb_eq in E. rewrite E. fold out. rewrite Hout. reflexivity.
+    - apply orb_true_iff. right. rewrite HT, !mem_app. apply orb_true_iff. right. apply orb_true_iff. right.
+      apply CB.mem_In. apply in_flat_map. exists (i, td). split; [exact Hin|]. cbn [fst snd]. unfold CB.mem. rewrite E. left. reflexivity. }
+  fold T. rewrite C8, C9, C10. rewrite !andb_true_r. reflexivity.
+Qed.
+
+Example hygienic_ordinary : struct_ok ex_d_mv = true /\ hygienic ex_d_mv = true.
+Proof. split; vm_compute; reflexivity. Qed.
+Example hygienic_k_c08_3 : struct_ok ex_d_k3 = true /\ hygienic ex_d_k3 = false.
+Proof. split; vm_compute; reflexivity. Qed.
+
+(* a() = b(i): the index i is sized by the input b, so i_dim is tainted -- and that is fine *)
+Definition ex_d_s := MkDefinition (IdTensor "0_a" "a" [] []) [("a", MkFormat [] []); ("b", MkFormat [ExhaustAst.Mode_compressed] [0%Z])]
+                                  [("i", MkTensorDimension "b" 0%Z)].
+Definition ex_g_s := IgIterationNode "i" None (IgTerminalNode (IdTensor "1_b" "b" ["i"] [ExhaustAst.Mode_compressed])).
+Example names_ok_tainted_dim :
+  In "i_dim" (T1 ex_d_s) /\ names_ok ex_d_s ex_g_s = true /\ graph_outputs_of ex_d_s ex_g_s = true
+  /\ exists f, generate_ir None ex_d_s ex_g_s GlueGen.KernelType_evaluate = Some f.
+Proof. split; [vm_compute; tauto|]. split; [vm_compute; reflexivity|]. split; [vm_compute; reflexivity|]. eexists. vm_compute. reflexivity. Qed.
